@@ -1,0 +1,18 @@
+//go:build verif
+// +build verif
+
+package consensus
+
+import (
+	"github.com/LemoFoundationLtd/lemochain-core/chain/txpool"
+	"github.com/LemoFoundationLtd/lemochain-core/chain/types"
+)
+
+// VerifOnCurrentChanged runs the unexported DPoVP.onCurrentChanged (tx pool
+// bookkeeping when the head block changes / the fork switches) on a detached
+// engine that only has a tx pool and a tx guard. Used by the verification
+// harness (property C18).
+func VerifOnCurrentChanged(pool *txpool.TxPool, guard *txpool.TxGuard, oldCurrent, newCurrent *types.Block) {
+	dp := &DPoVP{txPool: pool, txGuard: guard}
+	dp.onCurrentChanged(oldCurrent, newCurrent)
+}
